@@ -242,6 +242,19 @@ def b_frames(rng, tier):
         dpsi, deps = C.nutation_longitude(e)() / AS, C.nutation_obliquity(e)() / AS
         if abs(dpsi + 17.20 * math.sin(om)) > 3.5 or abs(deps - 9.20 * math.cos(om)) > 1.5:
             ok, det = False, ("nutation main term", dpsi, -17.20 * math.sin(om), deps, 9.20 * math.cos(om))
+        # date arguments in every accepted form: an Epoch, (y, m, d) separately, in a tuple, in a list, a datetime.date (and a
+        # datetime at 0h) of the same civil day give the same values
+        if i % 5 == 0:
+            import datetime as _dt
+            yy, mm = rng.randint(-1999, 3999), rng.randint(1, 12)
+            dd = rng.randint(1, 28)
+            forms = [("Epoch", (Epoch(yy, mm, dd),)), ("y, m, d", (yy, mm, dd)), ("tuple", ((yy, mm, dd),)), ("list", ([yy, mm, dd],))]
+            if 1 <= yy <= 9999 and not (yy < 1582 or (yy == 1582 and mm < 11)):
+                forms += [("date", (_dt.date(yy, mm, dd),)), ("datetime", (_dt.datetime(yy, mm, dd),))]
+            for fn in (C.mean_obliquity, C.nutation_longitude, C.nutation_obliquity, C.true_obliquity):
+                vals = [(nm, fn(*a)()) for nm, a in forms]
+                if max(v for _, v in vals) - min(v for _, v in vals) > 1e-12:
+                    ok, det = False, ("input forms of one date disagree", fn.__name__, (yy, mm, dd), vals)
         t1 = C.true_obliquity(e)() - C.mean_obliquity(e)() - C.nutation_obliquity(e)()
         if abs(t1) > 1e-12:
             ok, det = False, ("true obliquity", t1)
